@@ -6,7 +6,8 @@
     stop_gradient: tangent 0;  round / floor / sign: tangent 0;
     clip_by_value(x, lo, hi): tangent passes iff lo ≤ x ≤ hi (inclusive);
     K.relu(x, alpha): tangent 1 for x > 0, alpha for x ≤ 0 (also AT 0);
-    where(c, a, b): routes value and tangent;   + − ×: usual rules.
+    where(c, a, b): routes value and tangent;   + − × ÷: usual rules (quotient rule for ÷);
+    abs: tangent sign(x) (0 at 0).
   Each quantizer's return expression of qkeras/quantizers.py is transcribed in this calculus.
 -/
 import QKV.Model.FixedQ
@@ -41,6 +42,18 @@ def relu (a : D) (slope : Rat) : D :=
   ⟨if 0 < a.val then a.val else slope * a.val, if 0 < a.val then a.tan else slope * a.tan⟩
 /-- a differentiable elementwise function given with its derivative (tanh, sigmoid) -/
 def fn (f f' : Rat → Rat) (a : D) : D := ⟨f a.val, f' a.val * a.tan⟩
+/-- `a / b` with a differentiable denominator (quotient rule) -/
+def div (a b : D) : D := ⟨a.val / b.val, (a.tan * b.val - a.val * b.tan) / (b.val * b.val)⟩
+/-- value of `tf.sign`: −1, 0, +1 -/
+def sgn (v : Rat) : Rat := if v < 0 then -1 else if v = 0 then 0 else 1
+/-- `tf.sign`, zero gradient -/
+def sign (a : D) : D := ⟨sgn a.val, 0⟩
+/-- value of `tf.abs` -/
+def absv (v : Rat) : Rat := if v < 0 then -v else v
+/-- `tf.abs`: gradient `sign(x)` (0 at 0) -/
+def abs (a : D) : D := ⟨absv a.val, sgn a.val * a.tan⟩
+/-- `tf.floor`, zero gradient -/
+def floor (a : D) : D := ⟨(a.val.floor : Int), 0⟩
 end D
 
 /-- the common tail of quantized_bits / quantized_relu / quantized_po2 / quantized_relu_po2 /
@@ -68,6 +81,62 @@ def qbitsXq (t : Tie) (c : BitsCfg) (x : D) : D :=
 
 def qbitsD (t : Tie) (c : BitsCfg) (useSte : Bool) (qf : Rat) (x : D) : D :=
   steMix useSte qf x (qbitsXq t c x)
+
+/-! ### quantized_bits with a data-dependent scale (`alpha in ("auto", "auto_po2")`, also the
+    `post_training_scale` / `freeze_scale` route).  The branch of `quantized_bits.__call__`:
+
+      x = x / m_i                                   -- normalise for the scale search
+      scale = <search over x>  |  self.scale / m    -- differentiable in x (K.max), NOT stopped here
+      v = tf.floor(tf.abs(x) / scale + 0.5)
+      z = tf.sign(x) * tf.where(v < levels / 2, v, levels / 2)
+      scale = scale * m
+      x = m_i * x                                   -- restore
+      xq = m_i * z / m ; xq = scale * xq
+      return steMix(use_ste, qnoise_factor, x, xq)
+
+    `symmetric` is forced to True by the constructor for a string alpha, so
+    `levels / 2 = 2^(bits-1) - 1`; `keep_negative` only enters through `m` (which cancels).
+    The scale search is a PARAMETER `scaleOf : D → D` (any function of the normalised input,
+    with any tangent): the theorems hold for all of them. -/
+
+structure AutoCfg where
+  bits : Int
+  integer : Int
+  keepNeg : Bool
+  deriving Repr, DecidableEq
+
+def AutoCfg.ub (c : AutoCfg) : Int := c.bits - (if c.keepNeg then 1 else 0)
+/-- `levels / 2` (symmetric): the largest code magnitude -/
+def AutoCfg.half (c : AutoCfg) : Rat := (twoPow (c.bits - 1) : Rat) - 1
+
+/-- the fully quantized tensor of the branch, from the normalised input `xn` and the (un-multiplied)
+    scale -/
+def qbitsAutoXq (c : AutoCfg) (scale xn : D) : D :=
+  let m : Rat := (twoPow c.ub : Rat)
+  let mi : Rat := pow2 c.integer
+  let v := D.floor (D.add (D.div (D.abs xn) scale) (D.const (1/2)))
+  let z := D.mul (D.sign xn) (if v.val < c.half then v else D.const c.half)
+  let scaleM := D.smul m scale                       -- scale = scale * m
+  D.mul scaleM (D.smul (1 / m) (D.smul mi z))        -- scale * (m_i * z / m)
+
+def qbitsAutoD (c : AutoCfg) (useSte : Bool) (qf : Rat) (scaleOf : D → D) (x : D) : D :=
+  let mi : Rat := pow2 c.integer
+  let xn := D.smul (1 / mi) x                        -- x = x / m_i
+  let xr := D.smul mi xn                             -- x = m_i * x
+  steMix useSte qf xr (qbitsAutoXq c (scaleOf xn) xn)
+
+/-- the same branch WITHOUT the restore `x = m_i * x` (the carrier stays `x / m_i`): not the code —
+    kept to state what the bookkeeping is for (`C06_bits_auto_unrestored_tan`) -/
+def qbitsAutoUnrestoredD (c : AutoCfg) (useSte : Bool) (qf : Rat) (scaleOf : D → D) (x : D) : D :=
+  let xn := D.smul (1 / pow2 c.integer) x
+  steMix useSte qf xn (qbitsAutoXq c (scaleOf xn) xn)
+
+/-- closed form of the quantized value for the scale `s` of the normalised tensor:
+    `s·2^integer · sign(x) · min(⌊|x| / (s·2^integer) + 1/2⌋, levels/2)` -/
+def qbitsAutoVal (c : AutoCfg) (s x : Rat) : Rat :=
+  let e : Rat := s * pow2 c.integer
+  let v : Rat := ((D.absv x / e + 1/2).floor : Int)
+  e * (D.sgn x * (if v < c.half then v else c.half))
 
 /-! ### quantized_relu -/
 
@@ -98,6 +167,19 @@ def qlinearD (t : Tie) (c : LinCfg) (qf : Rat) (x : D) : D :=
   let cl := D.clip s lo hi
   let r := D.roundThrough t (D.add cl (D.const (-shift)))
   let xq := D.smul c.qs (D.add r (D.const shift))
+  D.add x (D.smul qf (D.sub xq x))
+
+/-- `quantized_linear` for an arbitrary quantization scale `qs` (data-dependent for
+    alpha = 'auto' / 'auto_po2'): `_get_auto_quantization_scale` returns
+    `tf.stop_gradient(quantization_scale)`, then `x / qs`, clip, round-through, `* qs`. -/
+def qlinearSD (t : Tie) (c : LinCfg) (qs : D) (qf : Rat) (x : D) : D :=
+  let q := D.sg qs
+  let s := D.div x q
+  let (lo, hi, shift) : Rat × Rat × Rat :=
+    if c.signFn then (-1/2, 1/2, 1/2) else ((c.lo : Rat), (c.hi : Rat), 0)
+  let cl := D.clip s lo hi
+  let r := D.roundThrough t (D.add cl (D.const (-shift)))
+  let xq := D.mul (D.add r (D.const shift)) q
   D.add x (D.smul qf (D.sub xq x))
 
 /-! ### quantized_tanh / quantized_sigmoid: `clip(round_through(p * m) / m, lo, hi)` — no STE wrapper -/
